@@ -139,6 +139,7 @@ func (tree *Tree[T]) Add(pattern string, h T, ms []types.Middleware[T], methods 
 		n.handlers = make(map[string]T, handlersSize)
 	}
 
+	tree.vtraceAdd(pattern, methods)
 	return n.addMethods(h, pattern, ms, methods...)
 }
 
@@ -189,6 +190,7 @@ func (tree *Tree[T]) Clean(prefix string) {
 		defer tree.locker.Unlock()
 	}
 
+	tree.vtraceOp("clean", prefix, nil)
 	tree.vhook("clean.mutate", true)
 	tree.node.clean(prefix)
 
@@ -206,6 +208,7 @@ func (tree *Tree[T]) Remove(pattern string, methods ...string) {
 		defer tree.locker.Unlock()
 	}
 
+	tree.vtraceOp("remove", pattern, methods)
 	tree.vhook("remove.find", false)
 	child := tree.Find(pattern)
 	if child == nil {
@@ -280,6 +283,7 @@ func (tree *Tree[T]) match(ctx *types.Context) *node[T] {
 // 如果未找到，也会返回相应在的处理对象，比如 tree.notFound 或是相应的 methodNotAllowed 方法。
 func (tree *Tree[T]) Handler(ctx *types.Context, method string) (types.Node, T, bool) {
 	ctx.SetRouterName(tree.Name())
+	tree.vtraceEnter(ctx)
 
 	if tree.locker != nil { // 对 trace、notFound 和 node.handlers 的访问也需要在锁的范围之内
 		tree.locker.RLock()
@@ -288,6 +292,7 @@ func (tree *Tree[T]) Handler(ctx *types.Context, method string) (types.Node, T, 
 
 	tree.vhook("handler.walk", false)
 	if tree.hasTrace && method == http.MethodTrace {
+		tree.vtraceServe(ctx, method, tree.node, true)
 		return tree.node, tree.trace, true
 	}
 
@@ -300,14 +305,18 @@ func (tree *Tree[T]) Handler(ctx *types.Context, method string) (types.Node, T, 
 
 	tree.vhook("handler.lookup", false)
 	if node == nil || node.size() == 0 {
+		tree.vtraceServe(ctx, method, nil, false)
 		return nil, tree.notFound, false
 	}
 	if h, exists := node.handlers[method]; exists && method != methodNotAllowed { // 空的请求方法不是一个已注册的方法
+		tree.vtraceServe(ctx, method, node, true)
 		return node, h, true
 	}
 	if h, exists := node.handlers[methodNotAllowed]; exists {
+		tree.vtraceServe(ctx, method, node, false)
 		return node, h, false
 	}
+	tree.vtraceServe(ctx, method, nil, false)
 	return nil, tree.notFound, false // 比如 GET *，根节点只有 OPTIONS 一个处理方法。
 }
 
